@@ -182,7 +182,8 @@ PROPS = {
     "C02": dict(
         run=native_both_profiles, level=EXPL, technique="exhaustive shape enumeration with random payloads; bit-exact doc-derived oracle per combinator; cross-checks Sum2 vs SumStream<2>, Product2 vs ProductStream<2>, De Morgan both directions, purity over three reads; panic capture",
         rule="for each of the 16 combinators every shape is enumerated completely: outcome code of every input (Err(1), Err(2), None, Some; booleans Some(false)/Some(true)) x every weak ordering < = > of the present inputs' timestamps, arities 1..=5 of SumStream/ProductStream/Latest, payloads f32 and Quantity; Expirer adds clock state x age-vs-limit < = > x 4 limit strata, NoneToValue clock state x clock-vs-input order; each shape gets random finite values per (seed, sub, case) and get() is called three times; distinct = (combinator, payload, outcome vector, timestamp-order class)",
-        assumptions=["update() on a stateless combinator is a no-op returning Ok(()): reads after [set A; update(); set B] equal a fresh instance given B (bit-exact); input polls per update() are recorded, not judged",
+        assumptions=["expiry limits are drawn from a pool with 0, 1, negative, i64::MAX, MAX-1, MIN, MIN+1 (clock placed so that the crate's own now - t cannot overflow); NoneToValue / ConstantGetter parameters include special values; one object may serve as data input AND clock through all six Reference backings",
+                     "update() on a stateless combinator is a no-op returning Ok(()): reads after [set A; update(); set B] equal a fresh instance given B (bit-exact); input polls per update() are recorded, not judged",
                      "aliased inputs: the same source object on two or all input slots through Rc<RefCell>, raw pointer, Arc<Mutex>, Arc<RwLock>, *Mutex, *RwLock gives the documented outcome for equal operands; each case runs on a helper thread and a single uncontended read that has not returned after 20 s is a violation (logical non-return, e.g. self-deadlock), as is a panic",
                      "errors dominate everywhere except Latest, earliest input first; the time getter counts as the last input",
                      "both readings accepted where the docs are silent: Expirer(None input, clock Err) may be None or that error; NoneToValue(Some input, clock Err) may be the input or that error; Latest ties accept any maximal-stamp input",
@@ -202,7 +203,8 @@ PROPS = {
         quick_scale=4, thorough_scale=4, run=native_both_profiles, level="fault_enumeration", technique="model-based runtime monitor: partner relation rebuilt from terminal reads alone (twice: from state reads of power-of-two labels and from command reads) and compared with a set-of-pairs model; exhaustive BFS over reachable matchings x operations under panic capture; f64 reference for the read semantics",
         level_text="Every reachable link state of 2..6 terminals x every connect/disconnect operation is enumerated (breadth-first) and executed on fresh terminals under panic capture, so the operation-sequence part of the quantifier is covered completely up to n=6; the value/timestamp part is sampled. Still only 'held on what was executed'.",
         rule="exhaustive BFS: for n = 2..=6 every one of the 2/4/10/26/76 matchings x every connect(i,j), i!=j, and disconnect(i) x labels written first or last, each edge replayed on fresh terminals; plus random walks of 64 steps on 2..6 terminals and random read-semantics histories of 8..20 steps (set-state, set-command, connect, disconnect) with all three reads of every terminal checked after every step; distinct = (n, matching, operation, variant) / (n, pre-matching, op) / structural shape of the history",
-        assumptions=["connect(a,a) is never issued (outside the property)",
+        assumptions=["reads are repeated while shared borrows (Ref, never RefMut) of the partner / the terminal / both / an unrelated terminal are held and must neither panic nor change; states and commands may be delivered by follow + Terminal::update (a present followed datum becomes the own slot whatever its stamp; absent changes nothing; an error is returned and the slot is unchanged; the polling order of the two facets is not assumed); when the exact mean of two components is an f32 number the read must be that number",
+                     "connect(a,a) is never issued (outside the property)",
                      "state components finite with exponent headroom so the sum of two is finite; stamps are only compared",
                      "'latest' state/command of a terminal = the last set call; command ties may return either side",
                      "combined read is checked against the same terminal's own state and command reads taken just before; both Datum.time and TerminalData.time must carry the state's stamp when there is one"],
@@ -259,7 +261,8 @@ PROPS = {
     "C13": dict(
         run=native_both_profiles, level=EXPL, technique="model-based runtime oracle (newest issued command, side-mapping table) with exhaustive small-scope enumeration of command-slot assignments and quota-driven random histories and chains; snapshot bit-identity for the differential",
         rule="five sub-checks: assign (every assignment of {no command, distinct stamp ranks} to own and connected-external command slots x kind of the newest command, followed by 0-7 random rounds, for Invert, GearTrain via with_ratio_raw / with_ratio / new with 2-6 gears, Axle<1..3>), axle (Axle<1..=6> x each of the 2N slots as holder of the newest command x kind), random (single devices 1-8 rounds), chain (1-5 random Invert/GearTrain/Axle<2> joined by connect in random orientation, command injected at either end, devices updated in travel order, far end and every device exit checked), differential (five constructions x all 64 state-presence masks x 1-8 rounds); distinct = (device/constructor, connection pattern, first-round rank assignment, kind, issuing slot per round) / chain shape / per-round masks",
-        assumptions=["the harness is the only issuer of commands and every issued stamp is strictly larger than all earlier ones (equal stamps are outside the quantifier); the premise 'newest command readable before update' is re-confirmed before every update",
+        assumptions=["commands may be delivered through followed getters (device terminals pull them in during the device's own update, external terminals through an explicit Terminal::update run by the harness before it); gear trains are built through with_ratio_raw, with_ratio and the tooth-count constructor (2..6 gears) and driven in both directions",
+                     "the harness is the only issuer of commands and every issued stamp is strictly larger than all earlier ones (equal stamps are outside the quantifier); the premise 'newest command readable before update' is re-confirmed before every update",
                      "inverter/axle values compared exactly on canonical bits; gear values within 4 ulp per device crossed (a command that went /r then *r may differ in the last bit) plus an f64 product cross-check for chains",
                      "ratios in +-[1e-2,1e2]; stamps within |t| <= 2^40; states are present at random but not judged here"],
     ),
@@ -267,7 +270,8 @@ PROPS = {
         run=lane_c19.run, level=EXPL,
         technique="differential offline comparison of canonical traces (f32 bits with -0==+0 and NaN canonical, i64, outcome words; never units) of one seeded workload built under seven feature configurations; in-build EWMA one-step law using each build's own powf; panic capture; ill-dimensioned operations against plain f32 arithmetic in the unchecked builds",
         rule="200 (quick) / 20000 (thorough) seeded programs, each a pure function of (seed, program index), run through every public value type, motion profile, stream (scripted present/absent/Err(1)/Err(2) histories) and device in seven configurations: release {std, alloc+libm, alloc+micromath} x {dim_check_release, no checking} plus the default debug build; a second, ill-dimensioned program per index runs only in the three unchecked builds; E lines must be identical in all seven traces, powf-derived P lines within 8 ulp-of-magnitude between std and libm, S lines (EWMA law with the build's own powf) ok everywhere, checked-only C lines identical among the four checked builds, U lines = plain f32 arithmetic without panic or rejection; distinct = trace tag x configuration",
-        assumptions=["the trace binary itself always uses std; only rrtk is built no_std in the alloc+libm / alloc+micromath configurations",
+        assumptions=["the workload also covers every comparison trait, every From/TryFrom conversion and every State/Command setter, accessor and assign operator over edge pools (values 1 ulp or less than f32::EPSILON apart, +-0, 2^31 / 2^32 / 2^53 / 2^62 neighbours, i64 extremes); left out on purpose: items documented to differ between checked and unchecked builds (observed as class C / U instead), Debug text of unit-bearing types, language-level overflow panics",
+                     "the trace binary itself always uses std; only rrtk is built no_std in the alloc+libm / alloc+micromath configurations",
                      "whether checking is compiled in is read at run time from size_of::<Unit>() and must equal the configuration's cfg expression (mismatch = inconclusive)",
                      "micromath's powf is a coarse approximation (measured up to 0.25 absolute): its powf-derived lines are never compared across configurations, only against the EWMA law inside that build",
                      "integers kept far from overflow by construction so the debug build's overflow checks are never the observed difference"],
